@@ -41,22 +41,33 @@ func (e *Engine) VerifyFunc(key string, opts VerifyOpts) error {
 	e.loopOrd = map[ast.Stmt]int{}
 	e.retOrd = map[*ast.ReturnStmt]int{}
 	nl, nr := 0, 0
-	ast.Inspect(fn.Decl.Body, func(n ast.Node) bool {
-		switch s := n.(type) {
-		case *ast.ForStmt:
-			nl++
-			e.loopOrd[s] = nl
-		case *ast.RangeStmt:
-			nl++
-			e.loopOrd[s] = nl
-		case *ast.ReturnStmt:
-			nr++
-			e.retOrd[s] = nr
-		case *ast.FuncLit:
-			return false
-		}
-		return true
-	})
+	// loops are numbered in source order, including those inside function
+	// literals; returns of function literals are not returns of the function
+	var walk func(n ast.Node, inLit bool)
+	walk = func(root ast.Node, inLit bool) {
+		ast.Inspect(root, func(n ast.Node) bool {
+			switch s := n.(type) {
+			case *ast.ForStmt:
+				nl++
+				e.loopOrd[s] = nl
+			case *ast.RangeStmt:
+				nl++
+				e.loopOrd[s] = nl
+			case *ast.ReturnStmt:
+				if !inLit {
+					nr++
+					e.retOrd[s] = nr
+				}
+			case *ast.FuncLit:
+				if n != root {
+					walk(s.Body, true)
+					return false
+				}
+			}
+			return true
+		})
+	}
+	walk(fn.Decl.Body, false)
 	for k := range con.LoopInv {
 		if k < 1 || k > nl {
 			return fmt.Errorf("%s:%d: contract of %s names loop %d but the function has %d loops", con.File, con.Line, key, k, nl)
